@@ -112,6 +112,14 @@ def gen_cases(rng, tier):
     t = (["LAMMPS", "DLPOLY", "GULP", "excel"] + EAM_T)[i % 11]
     cases.append({"kind": "cli", "target": t, "seed": rng.randrange(1 << 30), "where": ["first", "interior", "last"][i % 3], "which": i,
                   "route": "strace" if i % 6 == 0 else "main"})
+  # a function that evaluates without raising but returns a value no table can hold (a fractional power of a base
+  # that turns negative is a complex number): the failure comes when the value is formatted.  In [Pair] the LAST
+  # entry is the one that fails, so that every earlier block is complete by then.  (GULP is left out: its writer
+  # formats complex numbers without complaint, so nothing fails.)
+  targets = [x for x in (["LAMMPS", "DLPOLY", "excel"] + EAM_T)[:10]]
+  for i in range(len(targets) * (1 if tier == "quick" else 6)):
+    cases.append({"kind": "cli", "target": targets[i % len(targets)], "seed": rng.randrange(1 << 30), "where": ["interior", "last", "first"][(i // len(targets)) % 3], "which": i,
+                  "route": "strace" if i % 7 == 0 else "main", "unwritable": 1})
   return cases
 
 
@@ -250,6 +258,31 @@ def run_api(case, ctx):
       ctx.violation("partial_table", "%s: evaluation %d of %d failed and %d bytes %s had already been written" % (
         t, k, total, rfk.nbytes, "(the whole table)" if whole else "(a truncated table; full table has %d)" % len(plain)), what="partial_table", target=t)
       return
+    # the same position once more, the evaluation now RETURNING a value no table format can hold (a complex number
+    # from a fractional power of a negative base, None, a string): the failure then happens while the value is
+    # formatted, not while it is computed - writers that evaluate everything first and format block by block
+    # fail here with earlier blocks already out
+    pv = monitors.POISON_VALUES[(k + case["k0"] // KSHARD) % len(monitors.POISON_VALUES)]
+    log3 = monitors.EventLog()
+    fpp = monitors.Failpoint(k, poison=pv)
+    wrapp = lambda f, tag: monitors.Spy(f, tag, log3, fpp)
+    try:
+      wp, binary = build(case, wrapp)
+    except Exception:
+      continue
+    rfp = monitors.RecordingFile(log3, binary=binary)
+    try:
+      wp(rfp)
+      ctx.count("unwritable_values_accepted")   # not a failed write: nothing to judge
+      continue
+    except Exception as e:
+      pass
+    ctx.count("unwritable_values_injected")
+    ctx.cls("unwritable:" + type(pv).__name__)
+    if rfp.nbytes != 0:
+      ctx.violation("partial_table", "%s: evaluation %d of %d returned %r, write() failed and %d bytes (full table %d) had already been written" % (
+        t, k, total, pv, rfp.nbytes, len(plain)), what="partial_table", target=t, variant="unwritable_value")
+      return
   ctx.nontrivial(fired > 0)
 
 
@@ -269,6 +302,7 @@ def cli_model(case):
   sname = secs[rng.randrange(len(secs))]
   s = bm.sec(items, sname)[1]
   kv = s[rng.randrange(len(s))]
+  orig = kv[1]
   on_rho = sname == "EAM-Embed"
   n, top = (nrho, cut_rho) if on_rho else (nr, cutoff)
   if t in ("DLPOLY", "DL_POLY") and not on_rho:
@@ -287,6 +321,12 @@ def cli_model(case):
   bm.sec(items, "Potential-Form")[1] += [["fail_sqrt(r, K)", "1.0 + pymath.sqrt(K - r)"], ["fail_log(r, K)", "1.0 + pymath.log(K - r)"],
                                          ["fail_if(r, K)", "if(r > K, pymath.acos(2), 1.0)"]]
   kv[1] = ">=0 %s %r" % (form, K)
+  if case.get("unwritable"):
+    form = "fail_pow"
+    if sname == "Pair":
+      kv[1] = orig
+      kv = s[-1]
+    kv[1] = "pow(as.polynomial %r -1.0, as.constant 0.5)" % K
   return bm.items_text(items), sname, form
 
 
